@@ -145,6 +145,10 @@ def _is_tag_only_line(line: str) -> bool:
     return starts_tag and ends_tag
 
 
+# Opening or closing fence of a fenced code block (up to 3 spaces of indentation).
+_code_fence_re: re.Pattern[str] = re.compile(r"^ {0,3}(`{3,}|~{3,})(.*)$")
+
+
 def preprocess_tag_block_spacing(text: str) -> str:
     """
     Preprocess text to ensure proper blank lines around block content within tags.
@@ -178,9 +182,24 @@ def preprocess_tag_block_spacing(text: str) -> str:
     if not has_tag_only_lines:
         return text
 
+    fence: str | None = None  # fence run that opened the code block we are inside, if any
     for i, line in enumerate(lines):
+        # Lines inside fenced code blocks are literal content, never tags or lists.
+        in_code = fence is not None
+        fence_match = _code_fence_re.match(line)
+        if fence is None:
+            if fence_match:
+                fence = fence_match.group(1)
+        elif (
+            fence_match
+            and fence_match.group(1)[0] == fence[0]
+            and len(fence_match.group(1)) >= len(fence)
+            and not fence_match.group(2).strip()
+        ):
+            fence = None
+
         # Check if we need to add a blank line BEFORE this line
-        if i > 0:
+        if i > 0 and not in_code:
             prev_line = lines[i - 1]
             prev_is_empty = prev_line.strip() == ""
 
